@@ -13,12 +13,15 @@ let rec nat_to_int (n : M.nat) : int = match n with M.O -> 0 | M.S k -> 1 + nat_
 
 let two62 = z_of_big (Z.shift_left Z.one 62)
 
+(* which parsed banks have a Token-2022 mint WITH the TransferFeeConfig extension (tokprog = 2), in parse order *)
+let fee_ext : bool list ref = ref []
 let parse_hbank (t : toks) : M.hbank =
   let b = Drv_bankops.parse_bank t in
   let awi = nz t in let awm = nz t in let lwi = nz t in let lwm = nz t in
   let tier = nz t in let tavil = nz t in let price = nz t in
   let tokprog = ni t in let bps = nz t in let mx = nz t in let orig = nz t in
   let etag = nz t in let n_em = ni t in
+  fee_ext := !fee_ext @ [tokprog = 2];
   let entries = Stdlib.List.init n_em (fun _ ->
     let tag = nz t in let fl = nz t in let wi = nz t in let wm = nz t in
     { M.re_tag = tag; re_flags = fl; re_wi = wi; re_wm = wm }) in
@@ -43,7 +46,9 @@ let suite_hops (line : string) : string =
   let nb = ni t in let na = ni t in
   let pf = parse_pf t in
   let now0 = nz t in
+  fee_ext := [];
   let banks = Stdlib.List.init nb (fun _ -> parse_hbank t) in
+  let has_fee_ext = Stdlib.Array.of_list !fee_ext in
   let accts = Stdlib.List.init na (fun _ -> { M.ha_la = M.la_empty; ha_flags = zi 0 }) in
   let utok = Stdlib.List.init na (fun _ -> Stdlib.List.init nb (fun _ -> two62)) in
   let w = ref { M.hw_banks = banks; hw_accts = accts; hw_now = now0; hw_pf = pf; hw_utok = utok;
@@ -75,6 +80,14 @@ let suite_hops (line : string) : string =
       let upd (old : Z.t) : Z.t = if Z.equal (big_of_z fl) Z.zero then Z.logand old (Z.lognot (Z.of_int 48)) else Z.logor old (big_of_z fl) in
       let accts' = Stdlib.List.mapi (fun i (ac : M.hacct) -> if i = a then { ac with M.ha_flags = z_of_big (upd (big_of_z ac.M.ha_flags)) } else ac) !w.M.hw_accts in
       w := { !w with M.hw_accts = accts' };
+      out := ("OK # " ^ dump_hworld !w) :: !out
+    end else if op = 38 then begin
+      (* fixture: pending Token-2022 fee change on bank b's mint + clock epoch; the model bank keeps the schedule in force *)
+      let b = ni t in let ob = nz t in let om = nz t in let nb_ = nz t in let nm = nz t in let en = nz t in let ce = nz t in
+      let (bps, mx) = TransferFee.get_epoch_fee { TransferFee.fs_old_bps = ob; fs_old_max = om; fs_new_bps = nb_; fs_new_max = nm; fs_new_epoch = en } ce in
+      let banks' = Stdlib.List.mapi (fun i (hb : M.hbank) ->
+        if i = b && has_fee_ext.(i) then { hb with M.hb_tf_bps = bps; hb_tf_max = mx } else hb) !w.M.hw_banks in
+      w := { !w with M.hw_banks = banks' };
       out := ("OK # " ^ dump_hworld !w) :: !out
     end else if op = 36 then begin
       let b = nn t in
